@@ -371,6 +371,27 @@ def run(tier, seed):
     if chk.violations:           # the negative controls presuppose an implementation that conforms
         return chk.finish()
     controls(chk, tier, seed, usable, tabs, pairing, rng)
+    # the estimator is a function of (region, state, batch) only: one SWAP object reused on the same tensor
+    # object that is advanced / refilled in place, and after its region attribute was reassigned
+    import random as _random
+    import obs_reuse
+    import lattice as _lat
+    from qucumber.observables import SWAP as _SWAP
+    _rng = _random.Random(seed)
+    _states = []
+    for _typ in ("positive", "complex", "density"):
+        _st = _lat.PositiveWaveFunction(3, 2, gpu=False) if _typ == "positive" else (
+            _lat.ComplexWaveFunction(3, 2, gpu=False) if _typ == "complex" else _lat.DensityMatrix(3, 2, 2, gpu=False))
+        with torch.no_grad():
+            for _net in _st.networks:
+                for _p in getattr(_st, _net).parameters():
+                    _p.copy_(torch.randn_like(_p) * 0.6)
+            if _typ == "density":
+                _st.rbm_ph.aux_bias.zero_()
+        _states.append((_typ, _st))
+    obs_reuse.reuse_phase(chk, lambda: _SWAP([0]), _states, _rng, "apply", rounds=6,
+                          mutate_attr=("A", [[1, 2], [0, 2], [2], [0, 1, 2]]))
+    obs_reuse.reuse_phase(chk, lambda: _SWAP([0, 2]), _states, _rng, "apply", rounds=4)
     chk.assumptions += [
         "regions are sets of distinct column indices (int for a singleton, list, integer ndarray, long tensor)",
         "'paired with a cyclic neighbour': row i with row (i-1) mod m or (i+1) mod m, every row exactly once in "
